@@ -253,6 +253,8 @@ func (ex *Exec) visitInstr(fr *frame, instr ssa.Instruction) (ret bool) {
 			fr.env[instr] = addr
 		} else {
 			addr = fr.env[instr].(*Val)
+			assignInPlace(addr, zero(deref(instr.Type())))
+			break
 		}
 		*addr = zero(deref(instr.Type()))
 	case *ssa.MakeSlice:
